@@ -146,10 +146,11 @@ def cases(rng, tier):
 # ---------------------------------------------------------------------------------------------- real code
 
 def fresh_registry():
-    """new decoder objects = the state of a new process (constructors take no arguments)"""
+    """the state of a new process: the module that owns the registry is executed again (new decoder objects, new
+    module-level names); the decoder classes' modules hold only constant tables"""
     import importlib
     m = importlib.import_module("drxtract.bitd.bitd2bmp")
-    m.DECODERS = {k: type(v)() for k, v in m.DECODERS.items()}
+    m = importlib.reload(m)
     return m
 
 
